@@ -256,7 +256,9 @@ class IncomingMessageHandler(IncomingMessageHandlerBase):
         """Process an internal version message."""
         try:
             gateway.protocol_version = message.payload
-        except (AwesomeVersionException, ValueError) as err:
+        except (AwesomeVersionException, ValueError, IndexError) as err:
+            # awesomeversion raises a bare IndexError for some version
+            # strings with embedded whitespace, eg "20.1.2.\n.".
             raise InvalidMessageError(err, message) from err
         return message
 
